@@ -254,6 +254,9 @@ func (r *sessRunner) step(ev *sessEvent, created map[string]bool) {
 	logStart := len(r.c.Log)
 	r.c.mu.Unlock()
 	panicked := ""
+	noteRequest("key-generation message (handler level: %v) %s %q caller=%q sender=%d threshold=%d participants=%v fault=%q, after %d earlier messages of this history",
+		r.handler, ev.Kind, ev.Acct, ev.Caller, ev.Sender, ev.Thr, ev.Parts, ev.Fault, len(r.lines))
+	defer requestDone()
 	func() {
 		defer func() {
 			if x := recover(); x != nil {
